@@ -526,7 +526,9 @@ def assemble(lines, argv=()):
                             blob = b''.join((p & ((1 << (8 * W)) - 1)).to_bytes(W, 'little')
                                             for p in ptrs) + bytes(body)
                             items[section].append((off, '.raw', blob, lineno))
-                            pending_const_ptr.append((section, off, table_end, strs))
+                            owner = label_order[section][-1][1] if (
+                                label_order[section] and label_order[section][-1][0] == off) else None
+                            pending_const_ptr.append((section, off, table_end, strs, owner))
                             sizes[section] += len(blob)
                         else:
                             raise AsmError('malformed .arg')
@@ -626,10 +628,9 @@ def assemble(lines, argv=()):
             prog.state_objects = objs
         else:
             prog.const_objects = objs
-    for sec, off, table_end, strs in pending_const_ptr:
-        for name, v in labels.items():
-            if label_section[name] == sec and v == off:
-                prog.arg_blobs[name] = {'section': sec, 'table': (off, table_end), 'strings': strs}
+    for sec, off, table_end, strs, owner in pending_const_ptr:
+        if owner is not None:
+            prog.arg_blobs[owner] = {'section': sec, 'table': (off, table_end), 'strings': strs}
     prog.labels = labels
     prog.label_section = label_section
     prog.finish_maps()
